@@ -122,10 +122,10 @@ func (g *gen) wrapSpy(e string) string {
 	return e
 }
 
-var strVars = []string{"s1", "s2", "p1.Name", "pp.Name", "m1.k1", "m1['k2']", "sl[0]", "u1"}
-var intVars = []string{"n1", "n2", "p1.Age", "m1.num", "n1", "loop.index"}
-var listVars = []string{"l1", "il", "sl", "p1.Tags", "l2"}
-var mapVars = []string{"m1", "m2", "p1.Meta", "mi"}
+var strVars = []string{"s1", "s2", "p1.Name", "pp.Name", "m1.k1", "m1['k2']", "sl[0]", "u1", "g1", "gm.k", "gp.Name"}
+var intVars = []string{"n1", "n2", "p1.Age", "m1.num", "gn", "loop.index"}
+var listVars = []string{"l1", "il", "sl", "p1.Tags", "l2", "gl"}
+var mapVars = []string{"m1", "m2", "p1.Meta", "mi", "gm"}
 var strFilters = []string{"upper", "lower", "trim", "capitalize", "title", "escape", "e", "raw", "striptags", "nl2br", "url_encode", "reverse", "length", "default('d')", "replace('a', 'b')", "slice(0, 2)", "first", "last", "json_encode", "spaceless"}
 var listFilters = []string{"reverse", "sort", "slice(1, 2)", "merge([7, 8])", "slice(0, 1)"}
 
@@ -207,7 +207,7 @@ func (g *gen) scalar(d int) string {
 		}
 		return "pp.Greeting"
 	case 14:
-		return "lab"
+		return pick(g.r, []string{"lab", "cycle(['a', 'b', 'c'], n1)", "json_encode(l1)", "length(l1)", "(n1 is same_as(n1)) ? 'same' : 'diff'", "cycle(sl, loop.index)", "json_encode(gm.inner)", "(s1 is same_as('x')) ? 1 : 2"})
 	default:
 		return g.scalar(0)
 	}
